@@ -19,6 +19,8 @@ def main():
     ap.add_argument("--replay", default=None)
     a = ap.parse_args()
     seed = int(os.environ.get("VERIF_SEED", "0") or 0)
+    if a.replay:
+        os.environ["VERIF_KEEP_REPLAYS"] = "1"
     warnings.filterwarnings("ignore")
     from . import tlc
     try:
